@@ -253,12 +253,31 @@ class _GenEscape(Exception):
         self.inner = inner
 
 
+class AExcValue:
+    """The exception object bound by `except ... as err` when the raiser (a scripted double) gave it attributes."""
+    def __init__(self, exc, attrs):
+        self.exc = exc
+        self.attrs = dict(attrs)
+
+    def __repr__(self):
+        return f'<{self.exc} {self.attrs}>'
+
+    def absint_hasattr(self, name):
+        return name in self.attrs
+
+    def absint_getattr(self, interp, name, node):
+        if name in self.attrs:
+            return self.attrs[name]
+        return Opaque(f'exception attribute {name}')
+
+
 class AbsRaise(Exception):
-    def __init__(self, exc, node, implicit=False, msg=''):
+    def __init__(self, exc, node, implicit=False, msg='', attrs=None):
         self.exc = exc
         self.node = node
         self.implicit = implicit
         self.msg = msg
+        self.attrs = attrs
 
 
 class _Ret(Exception):
@@ -297,7 +316,7 @@ _BUILTIN_EXC_PARENTS = {
     'AttributeError': 'Exception', 'RuntimeError': 'Exception',
     'NotImplementedError': 'RuntimeError', 'ZeroDivisionError': 'ArithmeticError',
     'OverflowError': 'ArithmeticError', 'ArithmeticError': 'Exception',
-    'StopIteration': 'Exception', 'AssertionError': 'Exception',
+    'StopIteration': 'Exception', 'AssertionError': 'Exception', 'RecursionError': 'RuntimeError',
     'struct.error': 'Exception', 'Exception': 'BaseException',
     'KeyboardInterrupt': 'BaseException', 'queue.Empty': 'Exception',
     'socket.error': 'Exception',
@@ -349,6 +368,7 @@ class AbsInt:
         self._cm_stack = []             # with-bodies waiting to run at the yield of a @contextmanager generator
         self.global_store = {}          # (module name, global name) -> value written through a `global` declaration
         self.method_hooks = []          # callables (interp, base, name, args, kwargs, node) -> value | _NO
+        self.value_summaries = {}       # id(callable value, e.g. a closure) -> callable(interp, args, kwargs, node)
 
     # --------------------------------------------------------------- explore
     def explore(self, thunk, limit=64):
@@ -359,6 +379,7 @@ class AbsInt:
             self._choices = list(pre)
             self._trace = []
             self.depth = 0
+            self._callstack = []
             EVENT_LOG.clear()
             try:
                 v = self.consume(thunk())
@@ -401,6 +422,11 @@ class AbsInt:
             dn = unparse(d.func) if isinstance(d, ast.Call) else unparse(d)
             if dn.split('.')[-1] not in _SAFE_DECORATORS:
                 raise Unsupported(f'decorator @{dn} on {info.qname} is not modelled (it may cache or alter the function)')
+        key = (info.qname, id(args[0]) if args else None)
+        stack = self.__dict__.setdefault('_callstack', [])
+        if stack.count(key) >= 4:
+            # the same function entered again and again on the same object with nothing bounding it: unbounded recursion
+            raise AbsRaise('RecursionError', node, implicit=True, msg=info.qname)
         if self.depth >= self.max_depth:
             return Opaque(f'call depth at {info.qname}')
         fn = info.node
@@ -456,13 +482,15 @@ class AbsInt:
                 self.run_generator(g, cb)
                 return None
             return g
-        log_event('enter', info.qname, args[0] if args else None)
+        log_event('enter', info.qname, args[0] if args else None, info, closure, self.depth)
+        stack.append(key)
         try:
             self.ex_block(fn.body, env, info.module)
         except _Ret as r:
             return r.v
         finally:
             self.depth -= 1
+            stack.pop()
         return None
 
     def ev_default(self, expr, module):
@@ -597,7 +625,7 @@ class AbsInt:
                     for h in st.handlers:
                         if any(exc_is(e.exc, hn, self.extra_exc_parents) for hn in handler_names(h)):
                             if h.name:
-                                env[h.name] = Opaque('exception')
+                                env[h.name] = AExcValue(e.exc, e.attrs) if getattr(e, 'attrs', None) else Opaque('exception')
                             self.ex_block(h.body, env, m)
                             break
                     else:
@@ -1810,6 +1838,8 @@ class AbsInt:
         return self.apply(f, args, kwargs, e)
 
     def apply(self, f, args, kwargs, node):
+        if id(f) in self.value_summaries:
+            return self.value_summaries[id(f)](self, args, kwargs, node)
         if isinstance(f, FuncRef):
             return self.call_function(f.info, args, dict(kwargs), node)
         if isinstance(f, tuple) and f and f[0] == 'bound':
@@ -2553,6 +2583,8 @@ def concretize(v):
     """Abstract value -> plain Python value where it is fully known (for folded tables); other values stay abstract."""
     if isinstance(v, AV) and v.is_const:
         return v.const
+    if isinstance(v, (dict, list, tuple, set, frozenset)) and _is_concrete(v):
+        return v                    # already a plain value: keep the very object (tables share their rows)
     if isinstance(v, ADict):
         try:
             return {concretize(k): concretize(x) for k, x in v.d.items()}
